@@ -20,7 +20,10 @@ VARIABLE prog          \* the program (constant during a behaviour)
 Atoms == {"a1", "a2", "a3", "a4"}
 EnvOf == [a \in Atoms |-> CASE a = "a1" -> "e1" [] a = "a2" -> "e2" [] a = "a3" -> "e3" [] OTHER -> "e4"]
 NotOf == [a \in Atoms |-> CASE a = "a1" -> "n1" [] a = "a2" -> "n2" [] a = "a3" -> "n3" [] OTHER -> "n4"]
+QOf   == [a \in Atoms |-> CASE a = "a1" -> "q1" [] a = "a2" -> "q2" [] a = "a3" -> "q3" [] OTHER -> "q4"]
 EnvGoals == {EnvOf[a] : a \in Atoms}
+QGoals == {QOf[a] : a \in Atoms}
+AtomOfQ(g) == CHOOSE a \in Atoms : QOf[a] = g
 NotGoals == {NotOf[a] : a \in Atoms}
 AtomOfNot(g) == CHOOSE a \in Atoms : NotOf[a] = g
 
@@ -28,14 +31,22 @@ BlankStrand(lits) ==
   [lits |-> lits, flo |-> <<>>, del |-> <<>>, sel |-> 0, selT |-> 0, selA |-> 0, last |-> 0,
    amb |-> FALSE, atime |-> 0, sub |-> "", ncon |-> 0]
 
-BodyLits(body) == [i \in 1..Len(body) |-> [pos |-> body[i].pos, g |-> body[i].a]]
+(* The where-clause `S: T` of an impl is lowered to the condition `ForAll<> { Implemented(S: T) }`
+   (chalk-ir/src/cast.rs, Binders<T> -> Goal), a non-domain goal with its own table ("q<i>");
+   conditions of custom clauses are used as written.
+   Lowering reverses the conditions of a custom clause (chalk-integration/src/lowering.rs: the
+   engine selects the LAST literal first), impl where-clauses keep their order. *)
+BodyLits(body, viaQ) ==
+  [i \in 1..Len(body) |->
+     IF viaQ THEN [pos |-> body[i].pos, g |-> QOf[body[i].a]]
+     ELSE [pos |-> body[Len(body) + 1 - i].pos, g |-> body[Len(body) + 1 - i].a]]
 
 IsPositive(c) == \A i \in 1..Len(c.body) : c.body[i].pos
 SelectClauses(a, P(_)) ==
   LET idx == {i \in 1..Len(prog.clauses) : prog.clauses[i].head = a /\ P(prog.clauses[i])}
       RECURSIVE Build(_)
       Build(i) == IF i > Len(prog.clauses) THEN <<>>
-                  ELSE IF i \in idx THEN <<BlankStrand(BodyLits(prog.clauses[i].body))>> \o Build(i + 1)
+                  ELSE IF i \in idx THEN <<BlankStrand(BodyLits(prog.clauses[i].body, IsPositive(prog.clauses[i])))>> \o Build(i + 1)
                   ELSE Build(i + 1)
   IN Build(1)
 
@@ -49,10 +60,12 @@ InitialStrands(g) ==
        \o SelectClauses(g, LAMBDA c : IsPositive(c))
        \o SelectClauses(g, LAMBDA c : ~IsPositive(c))
   ELSE IF g \in NotGoals THEN <<BlankStrand(<<[pos |-> FALSE, g |-> AtomOfNot(g)]>>)>>
+  ELSE IF g \in QGoals THEN <<BlankStrand(<<[pos |-> TRUE, g |-> AtomOfQ(g)]>>)>>
   ELSE <<>>
 
 TableNewEvent(g) ==
-  [ev |-> "TableNew", table |-> Len(tables), key |-> g, g |-> g, co |-> (g \in prog.co),
+  [ev |-> "TableNew", table |-> Len(tables), key |-> g, g |-> g,
+   co |-> (g \in prog.co \/ (g \in QGoals /\ AtomOfQ(g) \in prog.co)),
    flo |-> FALSE, strands |-> InitialStrands(g)]
 
 HasTable(g) == \E i \in 1..Len(tables) : tables[i].key = g
@@ -120,7 +133,11 @@ Candidates(cur) ==       \* cur: the public call in progress [kind, goal, stopAt
                                                                  !.amb = s.amb \/ ans.amb,
                                                                  !.atime = s.atime + 1,
                                                                  !.del = s.del \o ans.del]>>]}
-                        ELSE {[ev |-> "Merge", outcome |-> "negfail", next |-> <<>>, strand |-> <<>>]}
+                        ELSE IF ans.del # <<>>
+                             \* named deviation SLG_NegativeOnDelayedAnswer: logic.rs merge_answer_into_strand
+                             \* panics ("Negative subgoal had delayed_subgoals"); the panic unwinds like any other
+                             THEN {[ev |-> "Panic"]}
+                             ELSE {[ev |-> "Merge", outcome |-> "negfail", next |-> <<>>, strand |-> <<>>]}
                    ELSE {})
         ELSE {})
   \cup (IF pc = "answer"
